@@ -288,9 +288,16 @@ def check(prop, tier, seed, only=None, jobs=None):
                  json.dumps(rep["labels"], sort_keys=True)))
     for msg in messages:
         print(msg)
+    shown = {}
     for (name, path, text) in violations:
+        shown[name] = shown.get(name, 0) + 1
+        if shown[name] > 2:
+            continue
         print(text)
         print("VIOLATION property=%s replay=%s" % (prop, path))
+    for name, n in shown.items():
+        if n > 2:
+            print("... %d more replayed violations of %s.%s (replay files under replays/%s/)" % (n - 2, prop, name, prop))
     for msg in harness_errors:
         print("HARNESS-ERROR: " + msg)
     for msg in inconclusive:
